@@ -28,7 +28,7 @@ def _new_result():
 
 
 APIS_VJP = ["defvjp", "defvjp_argnums_kw", "defvjp_argnum", "defvjp_argnums", "defvjp_none"]
-APIS_JVP = ["defjvp", "defjvp_argnums_kw", "defjvp_argnum", "defjvp_argnums", "defjvp_none", "def_linear", "defjvp_same"]
+APIS_JVP = ["defjvp", "defjvp_argnums_kw", "defjvp_argnum", "defjvp_argnums", "defjvp_none", "def_linear", "defjvp_same", "defjvp_same_argnums_kw"]
 
 
 def make_primitive(api, n, cs, linear=False, none_pos=()):
@@ -38,7 +38,7 @@ def make_primitive(api, n, cs, linear=False, none_pos=()):
     from autograd.tracer import getval
 
     LOG = []
-    lin = linear or api in ("def_linear", "defjvp_same")
+    lin = linear or api in ("def_linear", "defjvp_same", "defjvp_same_argnums_kw")
 
     def raw(*xs, **kw):
         scale = kw.get("scale", 1.0)
@@ -130,6 +130,11 @@ def make_primitive(api, n, cs, linear=False, none_pos=()):
         def_linear(P)
     elif api == "defjvp_same":
         defjvp(P, *["same"] * n)
+    elif api == "defjvp_same_argnums_kw":
+        # "same" rules registered through argnums= in a permuted order: the tangent must be substituted
+        # at the registered argument position, not at the rule's position in the list
+        order = list(range(n))[::-1]
+        defjvp(P, *["same"] * n, argnums=order)
     else:
         raise ValueError(api)
     return P, raw, LOG
@@ -185,7 +190,7 @@ def run_contract_case(res, spec):
         P, raw, LOG = make_primitive(api, n, cs, none_pos=none_pos)
     except Exception as e:
         return viol("exception:register:" + type(e).__name__, traceback.format_exc()[-300:])
-    lin = api in ("def_linear", "defjvp_same")
+    lin = api in ("def_linear", "defjvp_same", "defjvp_same_argnums_kw")
     tp = true_partials(cs, xs, scale, lin)
     y_plain = raw(*xs, **kw)
     with warnings.catch_warnings():
@@ -383,7 +388,7 @@ def run_checkpoint_case(res, rng, i):
     if not programs.well_scaled(prog, x, RAW_USER, bound=1e3):
         res["not_judged"]["ill_scaled"] = res["not_judged"].get("ill_scaled", 0) + 1
         return
-    variant = ["plain", "nested", "kwargs", "two_args", "inside_graph"][i % 5]
+    variant = ["plain", "nested", "kwargs", "two_args", "inside_graph", "ignored_arg", "inner_grad_ignored_arg"][i % 7]
     st = programs.structure_signature(prog)
     sig = {"engine": "ext", "family": "checkpoint", "variant": variant, "ops": st["ops"]}
     case = {"kind": "checkpoint", "prog": programs.enc_program(prog), "x": enc(x), "variant": variant}
@@ -401,6 +406,17 @@ def run_checkpoint_case(res, rng, i):
         f2 = lambda t, u: programs.interpret(prog, t * anp.sin(u), anp, U)
         f, fc = f2, checkpoint(f2)
         call = lambda fn: (lambda t: fn(t, t * 0.5 + 0.1))
+    elif variant == "ignored_arg":
+        # a (traced) argument the function never uses
+        f3 = lambda t, u: programs.interpret(prog, t, anp, U)
+        f, fc = f3, checkpoint(f3)
+        call = lambda fn: (lambda t: fn(t, anp.cos(t)) + anp.sum(t * t))
+    elif variant == "inner_grad_ignored_arg":
+        # the checkpointed function is differentiated by an inner grad whose own variable reaches both
+        # arguments, the enclosing variable as well; the second argument is ignored by the function
+        f3 = lambda t, u: programs.interpret(prog, t, anp, U)
+        f, fc = f3, checkpoint(f3)
+        call = lambda fn: (lambda t: anp.sum(grad(lambda xx: fn(xx * anp.sin(t), xx + t))(t * 0.7 + 0.2) ** 2) + anp.sum(t * t))
     else:
         f, fc = base, checkpoint(base)
         call = lambda fn: (lambda t: anp.tanh(fn(anp.sin(t) * 1.1)) + anp.sum(t))
